@@ -34,6 +34,8 @@ CLAIMED.update({
          "PATH_COMPLETE: names are concrete catalogue values (networkx hashes nodes); bounds: 3-5 elements, <=2 relations (15 kinds alone, 4 pairs; all 120 pairs in thorough)"),
  "C17": ("symbolic execution of the real ProvDocument.serialize with a symbolic destination name over in-memory OS stand-ins: the solver yields one file name per path of the name handling (stdlib urlparse traced too); every witness is replayed on the real file system x 4 formats x 5 fault points (k-th stream write, final move) x with/without pre-existing file with fault-injecting proxies, checking exact target, completeness, no stray files and all-or-nothing", "4/C17",
          "PATH_COMPLETE w.r.t. the name handling; fault model: the default temp dir is another device (copy not atomic, rename fails with EXDEV), atomic rename either happens or not; names of 1-3 (quick) / 1-4 (thorough) code points"),
+ "C13": ("(i) bounded model checking: for ordered pairs of pure-Python exporters (PROV-JSON container encoder, ==, unified, flattened, lookups) on documents with symbolic contents z3 shows strict content, record order, registered and default namespaces identical before/after and the container unchanged; (ii) on every construction-path witness the unmodified build runs all 15 exporters (json +options, xml +/-force_types, provn, rdf, graph, dot, ==, hash, unified, flattened, lookups) and all 225 ordered pairs: snapshot unchanged, identical text on repetition and on a twin document built by the same calls (RDF: canonicalised graphs)", "4/C13",
+         "pure exporters for-all within bounds; C-backed exporters (lxml, rdflib, networkx, pydot) on one representative per construction path; determinism across processes / hash seeds outside the claim"),
 })
 NA = {}
 props = [json.loads(l) for l in open(os.path.join(V, "properties.jsonl"))]
